@@ -28,6 +28,11 @@ TEXT = {
  'C13': dict(level="C13_add_notify/_delete_notify/_update_notify give the exact recipients of component notifications as a function of the subscription set; "
                    "C13_subscribe/_unsubscribe/_leave_unsubscribes give the exact evolution of that set.",
              note=_std_note, technique=_tech),
+ 'C17': dict(level="C17_filter: for every list of flag strings F (all 1024 subsets and any unknown names), every history and every starting state, the run under F "
+                   "reaches the same server state as the flag-free run and delivers exactly its deliveries minus the message classes F names (induction over the "
+                   "history from the per-step lemma C17_step); C17_unknown_flag: names outside the ten remove nothing. Which sends each flag wraps in the source is "
+                   "the regenerated obligation Gen.flagSites_eq / ungatedBroadcasts_eq.",
+             note=_std_note, technique=_tech),
  'C14': dict(level="Theorems C14_too_large / C14_delivery / C14_flagged / C14_handle prove, for every session, sender, recipient list and body "
                    "(parametric in the bytes), exactly which members receive a custom message; the model is tied to the code by the correspondence run.",
              note=_std_note, technique=_tech),
